@@ -16,7 +16,7 @@ sense of Spec/Untar — that structure states its no-conflict clause on the abst
 `mkParents` has already created the missing parents; it never asks that parents precede their children
 as entries — so the Unpack refinement theorem `C15_refines_partial` applies to it unchanged
 (`C02_untar_filter`, last clause; `C02_roundtrip_filtered_partial`).  What `untar` — and `Unpack`:
-`unpackEntry` runs `MkdirAll(Dir(path), 0755)` before the type dispatch — makes of it:
+for a directory, link or file entry `unpackEntry` runs `MkdirAll(Dir(path), 0755)` first — makes of it:
 
 * an entry that was kept materialises as itself (`C02_untar_filter`: the same node as without the
   filter), whatever `keep` is: no condition on `keep` is needed;
@@ -294,7 +294,8 @@ theorem C02_roundtrip_filtered_partial (h : C03Scope fs cwd o src)
     (∀ r, r ≠ [] → (∀ r', ftShips (loadIgnore fs cwd src) fs (pathSegs src) r' → ¬ r <+: r') →
       ((unpack cwd' [] priv dst .none fs' (pack fs cwd o src).1.entries).1).get (pathSegs dst ++ r) = none) :=
   C02_roundtrip_filtered_model_partial fs cwd o src h htidy cwd' dst priv fs' hshallow
-    (fun _ _ hwf hx hsh hu => C15_refines_partial (cwd := cwd') (priv := priv) hdst hreal hempty hwf hx hsh hu)
+    (fun _ _ hwf hx hsh hu => C15_refines_partial (cwd := cwd') (priv := priv) hdst hreal hempty hwf
+      (UrXFlat.free hx) hsh hu)
 
 /-! ## 4. the user-facing corollary: kept files and links survive the round trip -/
 
